@@ -83,7 +83,10 @@ Section Step.
 
   (* ---------------------------------------------------------------- *)
   (* tracer.rs:528 single_step: PTRACE_SINGLESTEP, and again while the pc has not changed.
-     Ok (j, None): the thread is at j after the step; Ok (j, Some s): signal-stop. *)
+     Ok (j, None): the thread is at j after the step; Ok (j, Some s): signal-stop.
+     The stepped instruction ends the process (tracer.rs:540-550 at /repo HEAD, commit c0ceee6):
+     the tracee is gone, the rest is resumed, Err(ProcessExit(code)) with the real status;
+     step.rs on_step_error then fires on_exit(code) and drops breakpoints/watchpoints. *)
   Fixpoint single_step (fuel : nat) (pc0 : N) (j : nat) : res (nat * option N) :=
     match fuel with
     | O => OutOfFuel
@@ -226,7 +229,8 @@ Section Step.
     | _ => fun a => memN a temps
     end.
 
-  (* step.rs:232 step_out_frame + mod.rs:1015 step_out.  [ra] = what Debugee::return_addr gave. *)
+  (* step.rs:273 step_out_frame (HEAD; the CFA filter is stopped_not_above(start_cfa, true), :249)
+     + mod.rs step_out.  [ra] = what Debugee::return_addr gave. *)
   Definition step_out (fuel : nat) (ra : option N) (users : list N) (i : nat) : res outcome :=
     match tr i with
     | None => Err E_EXIT
